@@ -145,6 +145,39 @@ VARIANTS = [
                                 ("src/parse.rs", "use ", "// moved\n// twice\nuse "), ("src/regex.rs", "use ", "// moved\nuse "), ("src/tables.rs", "use ", "// moved\nuse "), ("src/bash.rs", "use ", "// moved\nuse ")],
       {p: None for p in ("C02", "C03", "C04", "C06", "C08", "C09", "C10", "C11", "C13", "C14", "C15")}),
     V("c03-rename-local-benign", [("src/dfa.rs", "let nonaccepting_states =", "let rejecting_states ="), ("src/dfa.rs", "dfa.accepting_states.clone(), nonaccepting_states]", "dfa.accepting_states.clone(), rejecting_states]")], {"C03": None, "C06": None}),
+    # ---------------- C07
+    V("c07-fish-descr-unencoded", [("src/fish.rs", """            r#"    set {scope_patch}descrs[{id}] {}"#,
+            make_string_constant(descr)""", """            r#"    set {scope_patch}descrs[{id}] "{}""#,
+            descr""")], {"C07": "SINK:fish::write_literals"}),
+    V("c07-bash-literals-handquoted", [("src/bash.rs", ".map(|lit| make_string_constant(lit))", ".map(|lit| format!(\"\\\"{}\\\"\", lit))")], {"C07": "SINK:bash::write_literals"}),
+    V("c07-pwsh-descr-via-helper-param", [("src/pwsh.rs", r"""format!("        {} = {};", id, make_string_constant(desc))""", r"""format!("        {} = \"{}\";", id, desc.as_str())""")], {"C07": "SINK:pwsh::write_literals"}),
+    V("c07-zsh-encoder-forgets-dollar", [("src/zsh.rs", r"""            .replace('`', "\\`")
+            .replace('$', "\\$")
+    )
+}
+""", r"""            .replace('`', "\\`")
+    )
+}
+""")], {"C07": "ENC:zsh::make_string_constant"}),
+    V("c07-bash-encoder-backslash-last", [("src/bash.rs", r"""        s.replace('\\', "\\\\")
+            .replace('\"', "\\\"")
+            .replace('`', "\\`")
+            .replace('$', "\\$")""", r"""        s.replace('\"', "\\\"")
+            .replace('`', "\\`")
+            .replace('$', "\\$")
+            .replace('\\', "\\\\")""")], {"C07": "ENC:bash::make_string_constant"}),
+    V("c07-bash-encoder-reordered-benign", [("src/bash.rs", r"""            .replace('`', "\\`")
+            .replace('$', "\\$")""", r"""            .replace('$', "\\$")
+            .replace('`', "\\`")""")], {"C07": None}),
+    V("c07-bash-word-unquoted-in-walk", [("src/bash.rs", """if [[ ${{literals[$literal_id]}} = "$word" ]]; then""", """if [[ ${{literals[$literal_id]}} = $word ]]; then""")], {"C07": "SK-QUOTE:pattern"}),
+    V("c07-bash-candidate-unquoted-split", [("src/bash.rs", """subword_candidates+=("$matched_prefix$literal")""", """subword_candidates+=($matched_prefix$literal)""")], {"C07": "SK-QUOTE:split"}),
+    V("c07-bash-eval-of-text", [("src/bash.rs", """            local literal="${{literals[$literal_id]}}"
+            candidates+=("$literal ")""", """            eval "local literal=${{literals[$literal_id]}}"
+            candidates+=("$literal ")""")], {"C07": "SK-QUOTE:eval"}),
+    V("c07-fish-literals-inside-quotes", [("src/fish.rs", """r#"    set {scope_patch}literals {literals}"#""", """r#"    set {scope_patch}literals "{literals}""#""")], {"C07": "QCTX:fish::write_literals"}),
+    V("c07-bash-rename-shell-var-benign", [("src/bash.rs", "local literal=${{literals[$literal_id]}}\n                if [[ $subword == \"$literal\" && -v", "local lit=${{literals[$literal_id]}}\n                local literal=$lit\n                if [[ $subword == \"$literal\" && -v")], {"C07": None}),
+    V("revert-52ad43c-bash-backslash", [("@revert", "52ad43c")], {"C07": "ENC:bash::make_string_constant"}),
+    V("revert-0f716bf-bash-literal-quotes", [("@revert", "0f716bf")], {"C07": "SK-QUOTE:pattern"}),
     # ---------------- C10
     V("c10-std-hashset-in-dfa", [("src/dfa.rs", "use hashbrown::{HashMap, HashSet};", "use hashbrown::HashMap;\nuse std::collections::HashSet;")], {"C10": "HASHORD:dfa::dfa_from_regex"}),
     V("c10-env-var", [("src/lib.rs", '    let version = env!("COMPLGEN_VERSION");', '    let version = std::env::var("COMPLGEN_VERSION").unwrap_or_default();')], {"C10": "AMBIENT:signature"}),
